@@ -1,6 +1,118 @@
-(* TimelineProofs.v — lemmas about Model/Timeline.v *)
-From Pyro Require Import Model.Base Model.Segment Model.Timeline.
+(* TimelineProofs.v — lemmas about Model/Timeline.v (GenerateTimeline / PopulateTimeline). *)
+From Pyro Require Import Model.Base Model.Segment Model.Timeline Proofs.SegStruct.
+From Coq Require Import ZifyN ZifyNat ZifyBool Lia Sorted.
 Local Open Scope Z_scope.
 
 Lemma tl_generate_start a b : tl_st (tl_generate a b) = a.
 Proof. reflexivity. Qed.
+
+Lemma tl_generate_end a b : tl_et (tl_generate a b) = b.
+Proof. reflexivity. Qed.
+
+Lemma tl_generate_length a b :
+  length (tl_samples (tl_generate a b)) = Z.to_nat (Z.quot (b - a) (pow10 (tl_lvl (tl_generate a b)))).
+Proof. unfold tl_generate. cbn [tl_samples tl_lvl]. apply repeat_length. Qed.
+
+(* ---- the level picked: nanosecond arithmetic vs. the integer statement ---- *)
+
+(* durations[l] < totalDuration/1024 (int64 nanoseconds)  <=>  1024 * 10^l slots < b - a *)
+Lemma level_test a b l : a <= b ->
+  (pow10 l * ns_per_slot <? Z.quot ((b - a) * ns_per_slot) 1024) = (1024 * pow10 l <? b - a).
+Proof.
+  intros Hab. pose proof (pow10_pos l) as Hp. unfold ns_per_slot.
+  rewrite Z.quot_div_nonneg by lia.
+  destruct (Z.ltb_spec (1024 * pow10 l) (b - a)) as [H|H].
+  - apply Z.ltb_lt.
+    assert (pow10 l * 10000000000 + 1 <= (b - a) * 10000000000 / 1024); [|lia].
+    apply Z.div_le_lower_bound; lia.
+  - apply Z.ltb_ge. apply Z.div_le_upper_bound; lia.
+Qed.
+
+Section Pick.
+  Variable P : nat -> bool.
+  Variable m : Z.
+  Hypothesis HP : forall l, (pow10 l * ns_per_slot <? m) = P l.
+
+  Lemma pick_level_in : forall cands best, pick_level cands m best = best \/
+    (In (pick_level cands m best) cands /\ P (pick_level cands m best) = true).
+  Proof.
+    induction cands as [|l cands IH]; intros best; cbn [pick_level]; [left; reflexivity|].
+    rewrite HP. destruct (P l) eqn:E.
+    - destruct (IH l) as [->|[H1 H2]]; [right; split; [left; reflexivity|exact E]|right; split; [right; exact H1|exact H2]].
+    - destruct (IH best) as [->|[H1 H2]]; [left; reflexivity|right; split; [right; exact H1|exact H2]].
+  Qed.
+
+  Lemma pick_level_ge : forall cands best, Forall (fun x => (best <= x)%nat) cands -> (best <= pick_level cands m best)%nat.
+  Proof.
+    intros cands best H. destruct (pick_level_in cands best) as [->|[Hin _]]; [lia|].
+    rewrite Forall_forall in H. apply H, Hin.
+  Qed.
+
+  Lemma pick_level_max : forall cands best, StronglySorted lt cands -> Forall (fun x => (best <= x)%nat) cands ->
+    forall l, In l cands -> P l = true -> (l <= pick_level cands m best)%nat.
+  Proof.
+    induction cands as [|l0 cands IH]; intros best Hs Hb l Hin Hl; [destruct Hin|].
+    inversion Hs as [|? ? Hs' Hlt]; subst. inversion Hb as [|? ? Hb0 Hb']; subst.
+    cbn [pick_level]. rewrite HP. destruct Hin as [<-|Hin].
+    - rewrite Hl. apply pick_level_ge. eapply Forall_impl; [|exact Hlt]. cbn. intros; lia.
+    - destruct (P l0).
+      + apply IH; try assumption. eapply Forall_impl; [|exact Hlt]. cbn. intros; lia.
+      + apply IH; assumption.
+  Qed.
+End Pick.
+
+Definition tl_cands : list nat := [0; 1; 2; 3; 4; 5; 6; 7; 8]%nat.
+
+Lemma tl_cands_sorted : StronglySorted lt tl_cands.
+Proof. unfold tl_cands. repeat (constructor; [|repeat constructor; lia]). constructor. Qed.
+
+(* the bucket size is the largest 10^l * 10 s (l <= 8) with 1024 * 10^l * 10 s < range; 10 s if there is none *)
+Lemma tl_generate_level a b : a <= b ->
+  let lvl := tl_lvl (tl_generate a b) in
+  (lvl <= 8)%nat /\
+  (forall l, (l <= 8)%nat -> 1024 * pow10 l < b - a -> (l <= lvl)%nat) /\
+  (lvl = O \/ 1024 * pow10 lvl < b - a).
+Proof.
+  intros Hab. cbn zeta. unfold tl_generate. cbn [tl_lvl].
+  set (m := Z.quot ((b - a) * ns_per_slot) 1024).
+  set (P := fun l => 1024 * pow10 l <? b - a).
+  assert (HP : forall l, (pow10 l * ns_per_slot <? m) = P l) by (intros l; apply level_test, Hab).
+  fold tl_cands. split; [|split].
+  - destruct (pick_level_in P m HP tl_cands O) as [->|[Hin _]]; [lia|].
+    unfold tl_cands in Hin at 2. cbn [In] in Hin. lia.
+  - intros l Hl H. apply (pick_level_max P m HP tl_cands O tl_cands_sorted).
+    + unfold tl_cands. repeat constructor; lia.
+    + unfold tl_cands. cbn [In]. lia.
+    + unfold P. apply Z.ltb_lt, H.
+  - destruct (pick_level_in P m HP tl_cands O) as [->|[_ H]]; [left; reflexivity|right].
+    unfold P in H. apply Z.ltb_lt, H.
+Qed.
+
+(* ---- populate keeps the number of buckets ---- *)
+Lemma bump_range_length i0 i1 smp : forall buf idx, length (bump_range i0 i1 smp idx buf) = length buf.
+Proof. induction buf as [|x buf IH]; intros idx; cbn [bump_range length]; [reflexivity|]. rewrite IH. reflexivity. Qed.
+
+Lemma tl_populate_node_length : forall lvl a b dl n buf, length (tl_populate_node lvl a b dl n buf) = length buf.
+Proof.
+  induction lvl as [|l IH]; intros a b dl [t p s w ch] buf; cbn [tl_populate_node].
+  - destruct (is_outside _); [reflexivity|]. apply bump_range_length.
+  - destruct (is_outside _); [reflexivity|]. destruct (negb _ && _); [|apply bump_range_length].
+    revert buf. induction ch as [|o ch IHch]; intros buf; cbn [fold_left]; [reflexivity|].
+    rewrite IHch. destruct o as [c|]; [apply IH|reflexivity].
+Qed.
+
+Lemma tl_populate_length s tl : length (tl_samples (tl_populate s tl)) = length (tl_samples tl).
+Proof. unfold tl_populate. destruct (s_root s) as [[lvl n]|]; [apply tl_populate_node_length|reflexivity]. Qed.
+
+Lemma tl_populate_shape s tl :
+  tl_st (tl_populate s tl) = tl_st tl /\ tl_et (tl_populate s tl) = tl_et tl /\ tl_lvl (tl_populate s tl) = tl_lvl tl.
+Proof. unfold tl_populate. destruct (s_root s) as [[lvl n]|]; repeat split. Qed.
+
+Lemma tl_populate_all_shape (segs : list segment) : forall tl,
+  let tl' := fold_left (fun tl s => tl_populate s tl) segs tl in
+  tl_st tl' = tl_st tl /\ tl_et tl' = tl_et tl /\ tl_lvl tl' = tl_lvl tl /\ length (tl_samples tl') = length (tl_samples tl).
+Proof.
+  induction segs as [|s segs IH]; intros tl; cbn zeta; [repeat split|]. cbn [fold_left].
+  destruct (IH (tl_populate s tl)) as (H1 & H2 & H3 & H4). cbn zeta in *.
+  destruct (tl_populate_shape s tl) as (G1 & G2 & G3). rewrite H1, H2, H3, H4, G1, G2, G3, tl_populate_length. repeat split.
+Qed.
